@@ -1,11 +1,53 @@
 import Afkak.Monitor.C16
-import AfkakProofs.Group.Tables
+import AfkakProofs.Group.Step
 /-!
 # C16 — generation fencing: no partition consumer outlives its group generation
 Property theorems only; helper lemmas live in `AfkakProofs/Group/`.
+All theorems quantify over EVERY configuration and EVERY event list (an event the state does not
+enable is a no-op), i.e. over all rebalance histories, reply/timer interleavings and error kinds.
 -/
 namespace Afkak.Props.C16
 open Afkak.Group Afkak.Consts Afkak.Monitor.C16
+
+/-- Fencing invariant: in every reachable state a running partition consumer is one the group
+    still holds, it carries the member's CURRENT generation and member id, and its partition is in
+    the assignment of the last successful sync. -/
+theorem C16_fenced (cfg : Cfg) (evs : List Ev) :
+    ∀ c ∈ (final cfg evs).cons, c.phase = .running →
+      c.held = true ∧ c.gen = (final cfg evs).gen ∧ c.member = (final cfg evs).member ∧
+      (c.topic, c.part) ∈ (final cfg evs).asg := by
+  intro c hc hr
+  have h := final_sinv cfg evs
+  have hh : c.held = true := (h.held_running c hc).mpr hr
+  exact ⟨hh, h.held_cur c hc hh⟩
+
+/-- While a join/sync exchange is being prepared or is in flight (consumers shutting down, join
+    sent, leader loading partitions, sync sent) NO partition consumer is running: consumers of the
+    previous generation never overlap a join, and none is started before the sync reply. -/
+theorem C16_join_no_running (cfg : Cfg) (evs : List Ev)
+    (hj : (final cfg evs).jpc = .prepare ∨ (final cfg evs).jpc = .join ∨ (∃ n, (final cfg evs).jpc = .loadParts n) ∨
+          (final cfg evs).jpc = .sync) :
+    ∀ c ∈ (final cfg evs).cons, c.phase ≠ .running := by
+  intro c hc hr
+  have h := final_sinv cfg evs
+  have := h.mid_noheld hj c hc
+  rw [(h.held_running c hc).mpr hr] at this
+  cases this
+
+/-- Once `Coordinator.stop` has begun no consumer is running (they were shut down or stopped
+    first) and no rejoin is wanted any more. -/
+theorem C16_stopping_quiesced (cfg : Cfg) (evs : List Ev) (hs : (final cfg evs).stopping = true) :
+    (∀ c ∈ (final cfg evs).cons, c.phase ≠ .running) ∧ (final cfg evs).rejoinNeeded = false := by
+  have h := final_sinv cfg evs
+  refine ⟨fun c hc hr => ?_, h.stop_needed hs⟩
+  have := h.stop_noheld hs c hc
+  rw [(h.held_running c hc).mpr hr] at this
+  cases this
+
+/-- At most one join coroutine: `_rejoin_d` is set exactly while `_join_and_sync` is suspended. -/
+theorem C16_one_join_coroutine (cfg : Cfg) (evs : List Ev) :
+    ((final cfg evs).rejoinD = true ↔ (final cfg evs).jpc ≠ .idle) :=
+  (final_sinv cfg evs).rd_jpc
 
 /-- The source's error table stops the consumers (`on_group_leave`) for every eviction error —
     illegal generation, unknown member / invalid group, time-out — whether or not the member is
@@ -14,9 +56,23 @@ theorem C16_eviction_table (stopping : Bool) (e : GErr) (h : isEviction e = true
     (rejoinRow stopping e).leave = true ∧ (rejoinRow stopping e).act ≠ .ignore ∧ (rejoinRow stopping e).act ≠ .fatal :=
   Afkak.Group.Tables.eviction_leave stopping e h
 
+/-! Non-vacuity: a reachable state with running consumers of generation 5, and one in which a join
+is in flight. -/
+def exStable : List Ev :=
+  [.start, .coordDone .ok, .metaDone .ok, .joinDone (.ok 1 5 false 0), .syncDone (.ok [(1, [0, 1])])]
+example : ((final Cfg.default exStable).cons.map fun c => (c.phase, c.gen, c.member)) =
+    [(.running, some 5, 1), (.running, some 5, 1)] := by decide +kernel
+example : (final Cfg.default [.start, .coordDone .ok, .metaDone .ok]).jpc = .join := by decide +kernel
+example : (final Cfg.default (exStable ++ [.stop])).stopping = false ∧
+    (final Cfg.default (exStable ++ [.stop, .consumerDown 0 true, .consumerDown 1 true])).stopping = true := by decide +kernel
+
 end Afkak.Props.C16
 
 /- OBLIGATIONS
+C16_fenced
+C16_join_no_running
+C16_stopping_quiesced
+C16_one_join_coroutine
 C16_eviction_table
 -/
 /- OPEN_STATEMENTS
